@@ -806,6 +806,7 @@ package multiplex
 //@   preserves $SKEEP
 //@   loop 0 invariant lk: holdsEntryPlus(sesh.streamsM) && sesh != nil && sesh.streams != nil
 //@   loop 0 invariant table: forall k uint32 :: mapHas(sesh.streams, k) && sesh.streams[k] != nil ==> sesh.streams[k].session == sesh && sesh.streams[k].recvBuf != nil
+//@   loop 0 complete everyStreamVisited
 //@   loop 0 step countedOutWhenClosed: calls("(*Session).streamCountDecr") - old(calls("(*Session).streamCountDecr")) == calls("(recvBuffer).Close") - old(calls("(recvBuffer).Close"))
 
 // closeAll closes every pooled connection (sync.Map.Range with a callback: assumed)
